@@ -281,4 +281,9 @@ Print Assumptions c02_update_merge_unguarded_refuted.
 
 (** MERGE with a derived-table source (Tree/LemmaBDmlDerived.v): proved on the model side (model_pairs_merge_derived); the equation
     with the specification is PARTIAL - it takes the semantic side conditions of the one-derived-table theorem as hypotheses *)
-(* see Tree/LemmaBDmlDerived.v: model_pairs_merge_derived, lemma_B_merge_derived_partial, merge_derived_missing_col_refuted, merge_derived_star_refuted *)
+From SV Require Import Tree.LemmaBDmlDerived Tree.LemmaBDmlDerived2.
+Theorem c02_exact_on_update_and_merge_incl_derived_source : forall noise e d,
+  noise_ok noise = true -> env_ok e = true -> dml_cols_ok2 d = true ->
+  script_pairs e false [] [r_dml noise d] = dml_pairs (e_cfg e) d.
+Proof. exact lemma_B_dml2. Qed.
+Print Assumptions c02_exact_on_update_and_merge_incl_derived_source.
